@@ -27,6 +27,13 @@ def _cmp(rs, post, tags, op, out):
     elif rs["members"] != post["members"]:
         d = {e: (rs["members"][e], post["members"][e]) for e in rs["members"] if rs["members"][e] != post["members"][e]}
         out.append(("members", f"{op}: members differ (expected, observed): {d}", tags))
+    if not out and "memberships" in post:
+        want = C.memberships_from_members(post["cls"], post["nodes"], post["members"])
+        if want != post["memberships"]:
+            d = {n: (want.get(n), post["memberships"].get(n)) for n in set(want) | set(post["memberships"])
+                 if want.get(n) != post["memberships"].get(n)}
+            out.append(("memberships", f"{op}: the nodes report other memberships than the edges report members "
+                        f"(expected from the edge side, observed): {d}", tags))
     if not out:
         if {n: rs["nattr"][n] for n in rs["nodes"]} != post["nattr"]:
             out.append(("node-attrs", f"{op}: node attributes {post['nattr']} but the documentation yields {rs['nattr']}", tags))
